@@ -11,10 +11,12 @@ import vlib
 
 BASE = {
     "a.c": '#include "h.h"\nint a1(int x) { int buf[2]; buf[3] = x; return buf[0]; }\nint a2(void) { return hval() + 1; }\nint c1(void);\nint a3(void) { return c1(); }\n',
-    "b.c": "int b1(int *p) { if (p) { } return *p; }\nint b2(int d) { return 10 / d; }\nvoid b3(void) { int v; v = 1; }\nvoid b4(int *q) { *q = 0; }\n",
+    "b.c": "#include \"p.h\"\nint b1(int *p) { if (p) { } return *p; }\nint b2(int d) { return 10 / d; }\nvoid b3(void) { int v; v = 1; }\nvoid b4(int *q) { *q = 0; }\n",
     # c.c uses b.c (b2 is "used" only through c.c; b4(0) is a whole-program null pointer finding) and a.c uses c.c: a run
     # that re-analyses one of them while the other is served from the cache must still see the whole program
-    "c.c": "int c1(void) { int u; return u; }\nint b2(int d);\nint c2(void) { return b2(3); }\nvoid b4(int *q);\nvoid c3(void) { b4(0); }\n",
+    # (the prototypes are in a shared header: cppcheck identifies a function across files by the location of its first declaration)
+    "c.c": "#include \"p.h\"\nint c1(void) { int u; return u; }\nint c2(void) { return b2(3); }\nvoid c3(void) { b4(0); }\n",
+    "p.h": "void b4(int *q);\nint b2(int d);\n",
     "h.h": "#ifndef H_H\n#define H_H\nstatic int hval(void) { int hb[2]; hb[0] = 0; return hb[5]; }\n#endif\n",
     "d1/x.c": "int xa(void) { int *p = 0; return *p; }\n",
     "d2/x.c": "int xb(void) { int w; return w; }\n",
